@@ -103,7 +103,10 @@ def scaledCall (scale : F) (v : PVal F) : Except Err F :=
 
 /-- `ScaledInteger.validate`: a value whose grid value lies between the grid values of the limits is
 returned as that grid value; otherwise the range test (on the value as offered) decides whether it is
-clamped to a limit ("outside by not more than self.scale") or refused -/
+clamped to a limit ("outside by not more than self.scale") or refused.  The band of that test is measured
+from the GRID VALUES `lo`, `hi` of the limits - the limits that are enforced and that the datainfo
+describes (`fix:` "ScaledInteger.validate measures its tolerance from the limits on the grid"); so `min` and
+`max` enter only through `scaledCall scale min`, `scaledCall scale max` -/
 def scaledValidate (scale min max : F) (v : PVal F) : Except Err F :=
   match scaledCall scale v with
   | .error e => .error e
@@ -117,7 +120,7 @@ def scaledValidate (scale min max : F) (v : PVal F) : Except Err F :=
         match toFloat? v with
         | none => .error .wrongType                      -- not reached: `scaledCall` answered already
         | some x =>
-          if lt (sub min scale) x && lt x (add max scale) then .ok (median3 lo result hi)
+          if lt (sub lo scale) x && lt x (add hi scale) then .ok (median3 lo result hi)
           else .error .range
 
 /-- `self._enum[value]` by member value -/
